@@ -245,3 +245,52 @@ func vhC07PerRequestLimit() {
 		vAssert("second-request-beyond-its-own-limit-is-refused", len(got) == 1 && c.closed == 1)
 	}
 }
+
+// vhC07ClientResponseLimit: the client side. MaxResponseBodySize = L
+// (symbolic) and a non-streamed response of n body bytes — fixed length, one
+// chunk, or delimited by the close and arriving in reads of at most 2 bytes:
+// n ≤ L is returned whole, n > L ends in ErrBodyTooLarge, and the caller is
+// never handed more than L body bytes.
+func vhC07ClientResponseLimit() {
+	L := vIntRange("limit", 1, vParam("maxLimit", 6))
+	n := vLen("bodyLen", 0, vParam("maxBody", 8))
+	body := vBytes("body", n)
+	nw := &vcNet{}
+	framing := vChoose("framing", 3)
+	nw.onDial = func(k int, addr string) *vcConn {
+		c := &vcConn{}
+		switch framing {
+		case 0:
+			c.segs = [][]byte{append([]byte("HTTP/1.1 200 OK\r\nContent-Length: "+c07Digits(n)+"\r\n\r\n"), body...)}
+		case 1:
+			w := []byte("HTTP/1.1 200 OK\r\nTransfer-Encoding: chunked\r\n\r\n")
+			if n > 0 {
+				w = append(w, (c07Digits(n) + "\r\n")...) // n ≤ 9: decimal == hex
+				w = append(w, body...)
+				w = append(w, "\r\n"...)
+			}
+			c.segs = [][]byte{append(w, "0\r\n\r\n"...)}
+		case 2:
+			c.segs = [][]byte{[]byte("HTTP/1.1 200 OK\r\nConnection: close\r\n\r\n")}
+			for i := 0; i < n; i += 2 {
+				j := i + 2
+				if j > n {
+					j = n
+				}
+				c.segs = append(c.segs, body[i:j])
+			}
+		}
+		return c
+	}
+	hc := &HostClient{Addr: "a.co:80", Dial: nw.Dial, MaxResponseBodySize: L, MaxIdemponentCallAttempts: 1}
+	var req Request
+	var resp Response
+	req.SetRequestURI("http://a.co/x")
+	err := hc.Do(&req, &resp)
+	vAssert("never-more-than-the-limit-handed-to-the-caller", err != nil || len(resp.Body()) <= L)
+	if n > L {
+		vAssert("oversized-response-is-ErrBodyTooLarge", err == ErrBodyTooLarge)
+	} else {
+		vAssert("response-within-the-limit-is-returned-whole", err == nil && string(resp.Body()) == string(body))
+	}
+}
